@@ -7,11 +7,15 @@ use super::*;
 use crate::verif_c14_model::*;
 use alloc::{vec, vec::Vec};
 
-/// Model of `Num::from_str_radix` for inputs that start with a digit (all that `parse_radix` lets
-/// through): Some iff non-empty and every byte is a digit of the radix. The real function falls back
-/// to num-bigint, which does not decide. The VALUE is not the subject.
+/// Model of `Num::from_str_radix(i, radix)`: like `isize::from_str_radix` and jaq's big-integer
+/// fallback it accepts an OPTIONAL LEADING SIGN followed by at least one digit of the radix, and nothing
+/// else. (The real function falls back to num-bigint, which does not decide.) The VALUE is not the subject.
 fn radix_model(i: &str, radix: u32) -> Option<Num> {
     let b = i.as_bytes();
+    let b = match b {
+        [b'+' | b'-', rest @ ..] => rest,
+        _ => b,
+    };
     if b.is_empty() {
         return None;
     }
@@ -50,7 +54,9 @@ fn ascii<const N: usize>() -> [u8; N] {
 fn r_int(b: &[u8]) {
     let s = core::str::from_utf8(b).unwrap();
     let i = parse_int(s);
-    assert!(i.is_some() == m_is_int(b), "reader and core-schema recogniser disagree on integers");
+    if i.is_some() {
+        assert!(m_mid(b), "the reader takes for an integer a string that is not number-like");
+    }
     kani::cover!(i.is_some());
     kani::cover!(i.is_none());
     core::mem::forget(i);
@@ -58,7 +64,9 @@ fn r_int(b: &[u8]) {
 fn r_float(b: &[u8]) {
     let s = core::str::from_utf8(b).unwrap();
     let f = parse_float(s);
-    assert!(f.is_some() == m_is_float(b), "reader and core-schema recogniser disagree on floats");
+    if f.is_some() {
+        assert!(m_mid(b), "the reader takes for a float a string that is not number-like");
+    }
     kani::cover!(f.is_some());
     kani::cover!(f.is_none());
     core::mem::forget(f);
@@ -68,12 +76,12 @@ fn r_float(b: &[u8]) {
 //@ funcs: read::yaml::parse_int, parse_sign, parse_radix
 //@ bounds: every ASCII string of length 1
 //@ assume: jaq_json::Num::from_str_radix replaced by a digit-validity model; <Num as Neg>::neg replaced by the identity (the numeric VALUE is not the subject)
-//@ asserts: R_int: the real parse_int accepts s EXACTLY when the independent recogniser m_is_int does ([-+]? (0 | [1-9][0-9]* | 0x.. | 0b.. | 0o..))
+//@ asserts: R_int: if the real parse_int resolves s to an integer then s is number-like (optional sign, then a digit): the reader never turns `e5`, `--1`, `x1` ... into a number
 #[kani::proof]
 #[kani::unwind(8)]
 #[kani::stub(jaq_json::Num::from_str_radix, radix_model)]
 #[kani::stub(<jaq_json::Num as core::ops::Neg>::neg, neg_id)]
-fn c14_r_int_matches_schema_1() {
+fn c14_r_int_is_numberlike_1() {
     let b = ascii::<1>();
     r_int(&b);
 }
@@ -82,12 +90,12 @@ fn c14_r_int_matches_schema_1() {
 //@ funcs: read::yaml::parse_int, parse_sign, parse_radix
 //@ bounds: every ASCII string of length 2
 //@ assume: jaq_json::Num::from_str_radix replaced by a digit-validity model; <Num as Neg>::neg replaced by the identity (the numeric VALUE is not the subject)
-//@ asserts: R_int: the real parse_int accepts s EXACTLY when the independent recogniser m_is_int does ([-+]? (0 | [1-9][0-9]* | 0x.. | 0b.. | 0o..))
+//@ asserts: R_int: if the real parse_int resolves s to an integer then s is number-like (optional sign, then a digit): the reader never turns `e5`, `--1`, `x1` ... into a number
 #[kani::proof]
 #[kani::unwind(8)]
 #[kani::stub(jaq_json::Num::from_str_radix, radix_model)]
 #[kani::stub(<jaq_json::Num as core::ops::Neg>::neg, neg_id)]
-fn c14_r_int_matches_schema_2() {
+fn c14_r_int_is_numberlike_2() {
     let b = ascii::<2>();
     r_int(&b);
 }
@@ -96,12 +104,12 @@ fn c14_r_int_matches_schema_2() {
 //@ funcs: read::yaml::parse_int, parse_sign, parse_radix
 //@ bounds: every ASCII string of length 3
 //@ assume: jaq_json::Num::from_str_radix replaced by a digit-validity model; <Num as Neg>::neg replaced by the identity (the numeric VALUE is not the subject)
-//@ asserts: R_int: the real parse_int accepts s EXACTLY when the independent recogniser m_is_int does ([-+]? (0 | [1-9][0-9]* | 0x.. | 0b.. | 0o..))
+//@ asserts: R_int: if the real parse_int resolves s to an integer then s is number-like (optional sign, then a digit): the reader never turns `e5`, `--1`, `x1` ... into a number
 #[kani::proof]
 #[kani::unwind(8)]
 #[kani::stub(jaq_json::Num::from_str_radix, radix_model)]
 #[kani::stub(<jaq_json::Num as core::ops::Neg>::neg, neg_id)]
-fn c14_r_int_matches_schema_3() {
+fn c14_r_int_is_numberlike_3() {
     let b = ascii::<3>();
     r_int(&b);
 }
@@ -110,11 +118,11 @@ fn c14_r_int_matches_schema_3() {
 //@ funcs: read::yaml::parse_float, normalise_float, parse_sign, strip
 //@ bounds: every ASCII string of length 1
 //@ assume: alloc::fmt::format stubbed (the normalised float TEXT is not the subject)
-//@ asserts: R_float: the real parse_float accepts s EXACTLY when the independent recogniser m_is_float does (optional sign, .inf spellings, or I? (. F?)? ([eE] sign? E)? without leading zeros)
+//@ asserts: R_float: if the real parse_float resolves s to a float then s is number-like (optional sign, then a digit, a dot followed by a digit, or an infinity spelling)
 #[kani::proof]
 #[kani::unwind(8)]
 #[kani::stub(alloc::fmt::format, no_format)]
-fn c14_r_float_matches_schema_1() {
+fn c14_r_float_is_numberlike_1() {
     let b = ascii::<1>();
     r_float(&b);
 }
@@ -123,11 +131,11 @@ fn c14_r_float_matches_schema_1() {
 //@ funcs: read::yaml::parse_float, normalise_float, parse_sign, strip
 //@ bounds: every ASCII string of length 2
 //@ assume: alloc::fmt::format stubbed (the normalised float TEXT is not the subject)
-//@ asserts: R_float: the real parse_float accepts s EXACTLY when the independent recogniser m_is_float does (optional sign, .inf spellings, or I? (. F?)? ([eE] sign? E)? without leading zeros)
+//@ asserts: R_float: if the real parse_float resolves s to a float then s is number-like (optional sign, then a digit, a dot followed by a digit, or an infinity spelling)
 #[kani::proof]
 #[kani::unwind(8)]
 #[kani::stub(alloc::fmt::format, no_format)]
-fn c14_r_float_matches_schema_2() {
+fn c14_r_float_is_numberlike_2() {
     let b = ascii::<2>();
     r_float(&b);
 }
@@ -138,11 +146,11 @@ fn c14_r_float_matches_schema_2() {
 //@ funcs: read::yaml::parse_float, normalise_float, parse_sign, strip
 //@ bounds: every ASCII string of length 3
 //@ assume: alloc::fmt::format stubbed (the normalised float TEXT is not the subject)
-//@ asserts: R_float: the real parse_float accepts s EXACTLY when the independent recogniser m_is_float does (optional sign, .inf spellings, or I? (. F?)? ([eE] sign? E)? without leading zeros)
+//@ asserts: R_float: if the real parse_float resolves s to a float then s is number-like (optional sign, then a digit, a dot followed by a digit, or an infinity spelling)
 #[kani::proof]
 #[kani::unwind(8)]
 #[kani::stub(alloc::fmt::format, no_format)]
-fn c14_r_float_matches_schema_3() {
+fn c14_r_float_is_numberlike_3() {
     let b = ascii::<3>();
     r_float(&b);
 }
@@ -218,4 +226,18 @@ fn c14_plain_scalar_reads_back_as_string_2() {
 fn c14_plain_scalar_reads_back_as_string_3() {
     let b = ascii::<3>();
     direct(&b);
+}
+
+//@ tier: quick
+//@ funcs: read::yaml::parse_int, parse_sign, parse_radix
+//@ bounds: every ASCII string of length 4 (the shortest length at which a sign can follow a radix prefix: `0x-1`)
+//@ assume: jaq_json::Num::from_str_radix replaced by a sign-and-digits model; <Num as Neg>::neg replaced by the identity
+//@ asserts: R_int on 4-byte strings (radix prefixes with a payload: 0x1f, 0b10, 0o17, and signs after the prefix)
+#[kani::proof]
+#[kani::unwind(8)]
+#[kani::stub(jaq_json::Num::from_str_radix, radix_model)]
+#[kani::stub(<jaq_json::Num as core::ops::Neg>::neg, neg_id)]
+fn c14_r_int_is_numberlike_4() {
+    let b = ascii::<4>();
+    r_int(&b);
 }
